@@ -176,27 +176,31 @@ def rule_3(ctx):
                 and ast.unparse(r.value.elts[0]) == 'self.value'
             ctx.expect(ok, g, f'{cname}.__getnewargs__ returns (self.value,)', '__getnewargs__ does not return the value the instance holds')
     slots = fm.cls('ExcelType')
-    # error classes: Exception args contract
+    # error classes: pickle / jsonpickle / copy rebuild an exception as cls(*instance.args) - interpreted as written
     xm = ctx.mod('xlfunctions.xlerrors')
-    base_init = xm.func('ExcelError.__init__')
-    sup = [c for c in flow.calls_in(base_init) if isinstance(c.func, ast.Attribute) and c.func.attr == '__init__'
-           and 'super()' in ast.unparse(c.func.value)]
-    if len(sup) != 1:
-        raise AnchorMissing('ExcelError.__init__: super().__init__ call')
-    nargs = len(sup[0].args)
+    from xlsa.guards import World
     for qual in xm.classes:
         cref = XLERR + qual
         if not is_excel_error_ref(ctx, cref):
             continue
         im, init = ctx.res.class_attr(cref, '__init__')
-        pos = init.args.args[1:]
-        mx = len(pos) if not init.args.vararg else 99
-        mn = len(pos) - len(init.args.defaults)
-        ok = mn <= nargs <= mx
-        ctx.expect(ok, xm.cls(qual), f'{qual}(*args) accepts the {nargs} stored exception arg(s)',
-                   f'ExcelError stores {nargs} argument(s) in Exception.args (`{ast.unparse(sup[0])}`) but {qual}.__init__ accepts '
-                   f'{mn}..{mx}: pickle/jsonpickle rebuild an exception as cls(*args), so a model persisted with a {qual} value '
-                   'cannot be restored (TypeError)')
+        required = len(init.args.args) - 1 - len(init.args.defaults)
+        ctor_args = [(), ('Error in cell $Sheet1!A1',)] if required == 0 else [('#CODE!',), ('#CODE!', 'Error in cell $Sheet1!A1')]
+        problems = []
+        for a in ctor_args:
+            world = World()
+            it = Interp(ctx.a, xm, {'E': Ref(cref), 'a': a}, inline_pkg=True, world=world)
+            out = it.run(ast.parse('e = E(*a)\nreturn e').body)
+            if out.end != 'return' or not isinstance(out.value, Rec) or not isinstance(out.value.f.get('args'), tuple):
+                raise Unmodelled(f'{qual}{a!r} ends in {out.end} {out.value!r}')
+            stored = out.value.f['args']
+            it2 = Interp(ctx.a, xm, {'E': Ref(cref), 'a': stored}, inline_pkg=True, world=world)
+            out2 = it2.run(ast.parse('return E(*a)').body)
+            if out2.end != 'return':
+                problems.append(f'{qual}{a!r} keeps Exception.args == {stored!r}, and {qual}(*{stored!r}) ends in {out2.end} {out2.value!r}')
+        ctx.expect(not problems, xm.cls(qual), f'{qual}(*args) accepts the stored exception arg(s)',
+                   '; '.join(problems) + ': pickle/jsonpickle/copy rebuild an exception as cls(*args), so a model persisted with such an error '
+                   'value cannot be restored (TypeError)')
     ctx.floor(13, 'value classes + error classes')
 
 
@@ -239,6 +243,55 @@ def _col_index(letters):
     return n
 
 
+_WITNESS_FIELDS = {
+    'pkg:xltypes:XLRange': [
+        ('a 2x2 range', {'address_str': 'Sheet1!A1:B2', 'name': 'Sheet1!A1:B2', 'cells': [['Sheet1!A1', 'Sheet1!B1'], ['Sheet1!A2', 'Sheet1!B2']],
+                         'sheet': 'Sheet1', 'value': None}),
+        ('a named column', {'address_str': 'Data!C1:C3', 'name': 'block', 'cells': [['Data!C1'], ['Data!C2'], ['Data!C3']], 'sheet': 'Data', 'value': None}),
+    ],
+    'pkg:xltypes:XLFormula': [
+        ('a formula', {'formula': '=A1+1', 'sheet_name': 'Sheet1', 'reference': None, 'evaluate': True, 'tokens': [], 'terms': ['Sheet1!A1'],
+                       'associated_cells': {'Sheet1!A1'}, 'ast': None}),
+    ],
+}
+
+
+def _other_state_round_trips(ctx, cref, m, cnode, own):
+    """__getstate__ / __setstate__ of a persisted class other than XLCell: taking the state leaves the instance as it was (the model
+    that is persisted, copied or extracted from is used again), and a fresh instance given that state has every field back."""
+    from xlsa.guards import World
+    from . import values as V
+    import copy
+    short = cref.split(':')[-1]
+    witnesses = _WITNESS_FIELDS.get(cref)
+    if witnesses is None:
+        ctx.unmodelled(cnode, f'{cref}: pickling hooks on a class without witness instances')
+        return 0
+    n = 0
+    for label, fields in witnesses:
+        world = World()
+        src = Rec(cls=cref, **copy.deepcopy(fields))
+        it = Interp(ctx.a, m, {'src': src, 'dst': Rec(cls=cref)}, inline_pkg=True, world=world, call_models=V.openpyxl_models())
+        prog = 'state = src.__getstate__()\n' if '__getstate__' in own else 'state = dict(src.__dict__)\n'
+        prog += 'state = dict(state)\n'        # what the pickler keeps is a snapshot
+        prog += 'dst.__setstate__(state)\n' if '__setstate__' in own else 'dst.__dict__.update(state)\n'
+        out = it.run(ast.parse(prog).body)
+        n += 1
+        if out.end == 'raise':
+            ctx.bad(cnode, f'{short} state round trip with {label}', f'taking / restoring the state of {label} raises {out.value!r}')
+            continue
+        changed = {k: (v, src.f.get(k, '<missing>')) for k, v in fields.items() if src.f.get(k, '<missing>') != v}
+        ctx.expect(not changed, cnode, f'{short}: taking the state of {label} leaves the instance unchanged',
+                   f'after __getstate__ the instance itself differs: {changed} - persisting (or deep-copying, extracting from) a model must not '
+                   'alter it; the original is evaluated again afterwards')
+        dst = it.env['dst']
+        lost = {k: (v, dst.f.get(k, '<missing>')) for k, v in fields.items() if dst.f.get(k, '<missing>') != v}
+        n += 1
+        ctx.expect(not lost, cnode, f'{short} state round trip with {label}',
+                   f'{label} comes back from __getstate__/__setstate__ with {lost}: the restored model differs from the persisted one')
+    return n
+
+
 def rule_6(ctx):
     """Custom pickling hooks (__getstate__ / __setstate__ / __reduce__) of the classes that end up in the persisted maps:
     state taken from a witness instance and put into a fresh one must give back every field - whatever value the cell holds
@@ -258,6 +311,9 @@ def rule_6(ctx):
             continue
         if any(h.startswith('__reduce') for h in own):
             ctx.unmodelled(cnode, f'{cref}: __reduce__ protocol')
+            continue
+        if cref != 'pkg:xltypes:XLCell':
+            n += _other_state_round_trips(ctx, cref, m, cnode, own)
             continue
         # witnesses: one per kind of content
         def val(cls, v):
